@@ -89,6 +89,12 @@ def run(tier, seed):
     for cname, feats in FEATURES.items():
         if tier == "quick":
             fam = set(pairwise(feats, rng)) | {()} | {(f,) for f in feats} | {tuple(feats)}
+            # what users build: one expansion alone, with and without header encryption, with one transport flavour
+            if cname == "wow_world_messages":
+                for e in ("vanilla", "tbc", "wrath"):
+                    for io in ("sync", "tokio", "async-std"):
+                        fam.add(tuple(f for f in feats if f in (e, io, "encryption")))
+                    fam.add(tuple(f for f in feats if f in (e, "sync")))
         else:
             fam = {tuple(f for f, x in zip(feats, bits) if x) for bits in itertools.product((0, 1), repeat=len(feats))}
         for c, fs, _, _ in suspects:
